@@ -358,6 +358,7 @@ class C01(ClientProp):
                 if rng.random() < 0.2:
                     lst[-1]["replies"][0] = {"t": "eof"}      # this object's last login gets no answer
             out.append({"zone": "UTC", "t0": t0_pre2038(rng), "inst": inst, "ops": ops, "order": [rng.randrange(len(apis)) for _ in range(40)]})
+        out += self.tlc_scripts(ctx, ctx.pick(400, 5000))      # interleavings and fault patterns chosen by TLC (Gen_Client)
         return out
 
     def nontrivial(self, ev):
